@@ -8,4 +8,4 @@ From DD Require Import Driver5 Driver6 Consistent Driver7 Driver8 Copying CopyFn
 Require Extraction.
 Require Import ExtrOcamlBasic.
 Extraction Language OCaml.
-Extraction "model.ml" step2 digest world2_empty world2_get astep adigest aworld_empty aworld_get step_expr step_to_expr astep_expr astep_to_expr parse_show mstep mworld_empty mworld_get mdigest step_bdd_to_mdd step_dddmp astep_json_dump astep_json_load step_consistent astep_consistent step_expr_text astep_expr_text lex_show_text parse_show_text step_expr_lr astep_expr_lr step_copy_manager step_reduction astep_copy_fn.
+Extraction "model.ml" step2 digest world2_empty world2_get astep adigest aworld_empty aworld_get step_expr step_to_expr astep_expr astep_to_expr parse_show mstep mworld_empty mworld_get mdigest step_bdd_to_mdd step_dddmp astep_json_dump astep_json_load step_consistent astep_consistent step_expr_text astep_expr_text lex_show_text parse_show_text step_expr_lr astep_expr_lr step_copy_manager step_reduction astep_copy_fn astep_add_var.
